@@ -13,7 +13,7 @@ SPEC = dict(
          'saturation followed by a sign reversal of the error, a closed loop around an integer/real first-order plant, or piecewise constant; '
          'limit scenarios: wide, output tight, integrator tight, both, and the edges summax=0 / summin=0 / both 0 / outmin=outmax / an output '
          'interval not containing 0. Case mix per 20 cases: 6 plain exact, 2 plain pos-vs-inc pairs (exact), 3 plain real, 4 fuzzy exact, '
-         '2 fuzzy real, 3 neuron; the fuzzy cases enumerate operator (7) x rule-base order (1..7) cyclically, with random consequent tables '
+         '2 fuzzy real, 3 neuron, plus 1/80 of the case count appended as crisp-singleton histories (a zero-width GAUSS or GBELL set at a dyadic centre among ordinary sets, inputs on a dyadic grid steered exactly onto the centre on a third of the steps: whole state finite, output within limits, and bitwise agreement with a twin whose table lacks the set); the fuzzy cases enumerate operator (7) x rule-base order (1..7) cyclically, with random consequent tables '
          '(each of the three optionally NULL), membership tables built from mf.h (exact regime: tri/trap/lins/linz with integer break points '
          'and power-of-two flank widths; real regime: all 13 families) and the scratch buffer an exact-size malloc block of '
          'A_PID_FUZZY_BFUZZ(n), n = the largest number of overlapping membership supports. EXACT regime (integer inputs/limits, gains k/16): '
@@ -43,7 +43,9 @@ SPEC = dict(
              'seen-fuzzy-no-set-fires', 'neuro-configuration-untouched', 'neuro-ec-bitwise', 'neuro-run-passes-setpoint',
              'neuro-run-keeps-weights', 'neuro-weight-update-onestep', 'neuro-output-onestep', 'neuro-zero-keeps-weights-clears-ec',
              'neuro-twin-weights-bitwise', 'seen-output-at-outmax', 'seen-output-at-outmin', 'seen-integrator-at-or-beyond-summax',
-             'seen-integrator-at-or-beyond-summin', 'seen-integration-suspended', 'seen-integrator-pulled-back-from-clamp'],
+             'seen-integrator-at-or-beyond-summin', 'seen-integration-suspended', 'seen-integrator-pulled-back-from-clamp',
+             'fuzzy-singleton-histories', 'fuzzy-singleton-input-on-centre', 'fuzzy-singleton-on-centre-eq-twin-without-the-set', 'fuzzy-singleton-zero-mid-history',
+             'seen-fuzzy-singleton-e-and-ec-on-centre'],
     cov_files=['pid.c', 'pid_fuzzy.c', 'pid_neuro.c'],
     cov_cases=400, cov_funcs=r'^a_pid_',
     workers={'quick': 24, 'thorough': 48},  # three configurations run side by side: 8 / 16 workers each (the two companions finish within seconds)
